@@ -198,8 +198,15 @@ func (b *Broker) pending(id string) (found bool) {
 func (b *Broker) offline(ctx context.Context, topics *sync.Map, id string, topic string) bool {
 	if messages, ok := topics.Load(topic); ok {
 		topics.Delete(topic)
+		// the cache ends whether or not anybody listens: a publisher that has loaded it before
+		// the Delete above would otherwise append to it, report success, and the message
+		// would be seen by nobody
+		var taken []Message
+		if cache, _ := messages.(*MessageCache); cache != nil {
+			taken = cache.end()
+		}
 		if b.OnUnsubscribe != nil {
-			b.OnUnsubscribe(ctx, id, topic, messages.(*MessageCache).Take())
+			b.OnUnsubscribe(ctx, id, topic, taken)
 		}
 		b.response(ctx, id)
 		return true
@@ -266,10 +273,17 @@ func (b *Broker) message(ctx context.Context) map[string][]Message {
 
 func (b *Broker) Unicast(ctx context.Context, data interface{}, topic string, id string, from string) bool {
 	if topics, ok := b.messages.Load(id); ok {
-		if cache, ok := topics.(*sync.Map).Load(topic); ok && cache != nil {
-			cache.(*MessageCache).Append(Message{Data: data, From: from})
-			b.response(ctx, id)
-			return true
+		// a cache that has ended meanwhile is no longer in the map: look again (the client may
+		// have subscribed anew)
+		for {
+			cache, ok := topics.(*sync.Map).Load(topic)
+			if !ok || cache == nil {
+				break
+			}
+			if cache.(*MessageCache).put(Message{Data: data, From: from}) {
+				b.response(ctx, id)
+				return true
+			}
 		}
 	}
 	return false
@@ -288,12 +302,17 @@ func (b *Broker) Broadcast(ctx context.Context, data interface{}, topic string, 
 	b.messages.Range(func(key, value interface{}) bool {
 		id := key.(string)
 		topics := value.(*sync.Map)
-		if cache, ok := topics.Load(topic); ok && cache != nil {
-			cache.(*MessageCache).Append(Message{Data: data, From: from})
-			b.response(ctx, id)
-			result[id] = true
-		} else {
-			result[id] = false
+		result[id] = false
+		for {
+			cache, ok := topics.Load(topic)
+			if !ok || cache == nil {
+				break
+			}
+			if cache.(*MessageCache).put(Message{Data: data, From: from}) {
+				b.response(ctx, id)
+				result[id] = true
+				break
+			}
 		}
 		return true
 	})
